@@ -714,3 +714,92 @@ func scenarioStall10() {
 	emit(q)
 	emit(jMon{Kind: "mon", What: "panic", Ok: !pan, Detail: map[string]interface{}{"where": "Send, queue full for the enqueue timeout", "cap": capQ}})
 }
+
+// ---- scenario: burst -- one caller, one healthy destination, more messages than the queue holds ------------------------
+// Send must block the caller while the queue is full: only then is the order of one caller's calls the order on the wire.
+
+type jBurst struct {
+	Kind       string   `json:"kind"` // "burst"
+	Variant    string   `json:"variant"`
+	N          int      `json:"n"`
+	Payload    int      `json:"payload"`
+	Cap        int      `json:"cap"`
+	Received   int      `json:"received"`
+	Complete   bool     `json:"complete"`
+	Violations []string `json:"violations"`
+	Timeouts   int      `json:"timeouts"`
+	SendMs     int64    `json:"send_ms"`
+	WaitMs     int64    `json:"wait_ms"`
+}
+
+func scenarioBurst(seed uint64, variant string, n, payload int) {
+	c := newCluster(2)
+	s, d := c.nodes[0], c.nodes[1]
+	// receiving side: the real Listen + ServiceConnections; the consumer keeps sequence numbers only
+	lsnr := comm.Listen(d.addr, c.srvID.certPEM, c.srvID.keyPEM())
+	in, stop := comm.ServiceConnections(lsnr, c.p2id, d.log)
+	j := jBurst{Kind: "burst", Variant: variant, N: n, Payload: payload, Violations: []string{}}
+	var mu sync.Mutex
+	var seqs []uint32
+	viol := func(f string, a ...interface{}) {
+		if len(j.Violations) < 10 {
+			j.Violations = append(j.Violations, fmt.Sprintf(f, a...))
+		}
+	}
+	filler := newPRNG(seed).bytes(payload)
+	go func() {
+		for m := range in {
+			mu.Lock()
+			if m.From != s.id || m.Domain != loopDomain || m.Type != 0 || len(m.Topic) != 0 || len(m.Data) != 4+payload ||
+				(payload > 0 && (m.Data[4] != filler[0] || m.Data[len(m.Data)-1] != filler[payload-1])) {
+				viol("frame differs: from %d type %d topic %d bytes payload %d bytes", m.From, m.Type, len(m.Topic), len(m.Data))
+			} else {
+				seqs = append(seqs, binary.LittleEndian.Uint32(m.Data))
+			}
+			mu.Unlock()
+		}
+	}()
+	c.connectOut(s)
+	j.Cap = s.remotes.VerifQueueCap(1)
+	t0 := time.Now()
+	for i := 0; i < n; i++ {
+		data := make([]byte, 4+payload)
+		binary.LittleEndian.PutUint32(data, uint32(i))
+		copy(data[4:], filler)
+		s.remotes.Send(0, nil, data, 1)
+	}
+	j.SendMs = time.Since(t0).Milliseconds()
+	t1 := time.Now()
+	for time.Since(t1) < 30*time.Second {
+		mu.Lock()
+		got := len(seqs)
+		mu.Unlock()
+		if got >= n {
+			break
+		}
+		time.Sleep(10 * time.Millisecond)
+	}
+	time.Sleep(100 * time.Millisecond)
+	j.WaitMs = time.Since(t1).Milliseconds()
+	mu.Lock()
+	j.Received = len(seqs)
+	for i, q := range seqs {
+		if int(q) != i {
+			lo := i - 3
+			if lo < 0 {
+				lo = 0
+			}
+			hi := i + 8
+			if hi > len(seqs) {
+				hi = len(seqs)
+			}
+			viol("node 1 <- 0: message %d arrived at position %d (reordered / duplicated / missing); around it: %v", q, i, seqs[lo:hi])
+			break
+		}
+	}
+	mu.Unlock()
+	j.Complete = j.Received == n
+	j.Timeouts = s.log.timeoutCount()
+	emit(j)
+	stop()
+}
